@@ -112,6 +112,8 @@ def main():
                 hist[t] += 1
             if mod.nontrivial(c, ri):
                 nontriv.add(c.key())
+        if hasattr(mod, "prepare"):
+            mod.prepare(cases, impl)
         # ---------------- oracle on the implementation's behaviour
         olines, omap = [], {}
         for c in cases:
@@ -123,6 +125,8 @@ def main():
         oracle_fail = [omap[i] for i in omap if not ores.get(i, "NOANSWER").startswith("PASS")]
         # sanity of the oracle itself: it must accept the model's behaviour (that is the theorem)
         mlines = []
+        if hasattr(mod, "prepare"):
+            mod.prepare(cases, model)
         for c in (cases if getattr(mod, "ORACLE_ON_MODEL", True) else []):
             o = mod.oracle(c, model.get(c.id, "NOANSWER"))
             if o is not None:
